@@ -1884,3 +1884,107 @@ def shiftoperand(cpp):
             elif len(res.samples) < 4 and ltype:
                 res.samples.append(f"{mth.cls}::{mth.name}: {shown} : {ltype}")
     return res
+
+
+# ---- R-SUBSTRSPAN ---------------------------------------------------------------------------------------
+def _lin(expr, var):
+    """linear form {sym: coeff, 1: const} of `a + b - 3` over identifiers and `<var>.size()`."""
+    e = re.sub(r"\s+", "", expr).replace(f"{var}.size()", "SIZE")
+    out = {}
+    for sign, term in re.findall(r"([+-]?)([A-Za-z_]\w*|\d+)", e):
+        k = -1 if sign == "-" else 1
+        if term.isdigit():
+            out[1] = out.get(1, 0) + k * int(term)
+        else:
+            out[term] = out.get(term, 0) + k
+    if re.sub(r"[+-]?([A-Za-z_]\w*|\d+)", "", e):
+        return None
+    return {a: b for a, b in out.items() if b}
+
+
+def substrspan(repo):
+    """R-SUBSTRSPAN (C06): a substring taken between two delimiters that the enclosing condition has just tested is
+    exactly the text between them.  For `if (t[P] == '(' && t[Q] == ')') ... t.substr(A, B)`: A == P + 1 and A + B == Q,
+    as linear forms over the index variables and t.size().  (The NaN payload of a float token: an off-by-sign in B only
+    shows for tokens with a leading sign, i.e. for NaNs with the sign bit set.)"""
+    res = RuleResult("R-SUBSTRSPAN")
+    fn = "runtime/cpp/emboss_text_util.h"
+    text = _COMMENT.sub(lambda m_: " " * len(m_.group(0)), repo.read(fn))
+    for mt in re.finditer(r"(\w+)\.substr\(\s*([^,()]*(?:\([^()]*\)[^,()]*)*),\s*([^()]*(?:\([^()]*\)[^()]*)*)\)", text):
+        var, a_src, b_src = mt.group(1), mt.group(2), mt.group(3)
+        line = text[:mt.start()].count("\n") + 1
+        res.instances += 1
+        # nearest enclosing `if (` that tests two delimiter characters of the same variable
+        head = text[:mt.start()]
+        conds = list(re.finditer(r"if\s*\(([^{};]*)\)\s*\{", head))
+        delim = None
+        for c in reversed(conds[-6:]):
+            tests = re.findall(re.escape(var) + r"\[([^\]]+)\]\s*==\s*'(.)'", c.group(1))
+            if len(tests) == 2:
+                delim = tests
+                break
+        key = f"{fn}|{var}.substr|{line and ''}"
+        if delim is None:
+            res.add(f"{fn}|{var}.substr|no-delimiters", f"`{mt.group(0)[:60]}`: no enclosing test of two delimiter characters found", fn, line)
+            continue
+        (p_src, _), (q_src, _) = delim
+        P, Q, A, B = _lin(p_src, var), _lin(q_src, var), _lin(a_src, var), _lin(b_src, var)
+        if None in (P, Q, A, B):
+            raise AnalysisError(f"{fn}:{line}: substr bounds are not linear: {a_src!r}, {b_src!r}, {p_src!r}, {q_src!r}")
+        def add(x, y, k=1):
+            o = dict(x)
+            for kk, v in y.items():
+                o[kk] = o.get(kk, 0) + k * v
+            return {kk: v for kk, v in o.items() if v}
+        if add(A, add(P, {1: 1}), -1):
+            res.add(f"{fn}|{var}.substr|start", f"substring starts at `{a_src.strip()}`, the opening delimiter is at `{p_src.strip()}`: "
+                    "the start must be one past it", fn, line)
+        if add(add(A, B), Q, -1):
+            res.add(f"{fn}|{var}.substr|end", f"substring `{var}.substr({a_src.strip()}, {b_src.strip()})` ends at "
+                    f"`{a_src.strip()} + {b_src.strip()}`, the closing delimiter is at `{q_src.strip()}`: the text handed on includes "
+                    "the delimiter or stops short for some tokens (here: tokens with a leading sign, e.g. `-NaN(0x...)`, which the "
+                    "writer produces for NaNs with the sign bit set)", fn, line)
+        elif len(res.samples) < 2:
+            res.samples.append(f"{fn}:{line}: [{p_src.strip()}]+1 .. [{q_src.strip()}]")
+    res.analysed = [fn]
+    return res
+
+
+# ---- R-NARROWSTORE --------------------------------------------------------------------------------------
+def narrowstore(repo):
+    """R-NARROWSTORE (C04): a constructor of the runtime that keeps a `size_t` parameter in a narrower member
+    (`offset_{static_cast<uint8_t>(offset)}`) loses the high bits of an out-of-range argument -- the caller's own range
+    test (`offset + size <= size_`, computed in size_t) can wrap.  Such a constructor has an ok flag, and its initialiser
+    must contain `param == member_` for every narrowed member: that comparison is the only thing that rejects a
+    truncated offset before a checked Read() shifts by it."""
+    res = RuleResult("R-NARROWSTORE")
+    files = ["runtime/cpp/emboss_memory_util.h", "runtime/cpp/emboss_array_view.h", "runtime/cpp/emboss_view_parameters.h"]
+    rx_init = re.compile(r"(\w+_)\s*[({]\s*static_cast<\s*(?:/\*\*/)?\s*(?:::)?(?:std::)?(u?int(?:8|16|32)_t)\s*>\(\s*(\w+)\s*\)\s*[)}]")
+    for fn in files:
+        if not repo.exists(fn):
+            continue
+        text = _COMMENT.sub(lambda m_: " " * len(m_.group(0)) if m_.group(0) != "/**/" else "/**/", repo.read(fn))
+        # constructor initialiser lists: from ')' ':' up to the '{' that opens the (usually empty) body
+        for ctor in re.finditer(r"\)\s*:\s*((?:\w+_\s*[({][^;]*?[)}]\s*,?\s*)+)\{\s*\}", text, re.S):
+            inits = ctor.group(1)
+            narrowed = rx_init.findall(inits)
+            if not narrowed:
+                continue
+            line = text[:ctor.start()].count("\n") + 1
+            okm = re.search(r"(ok_)\s*[({](.*?)[)}]\s*,?\s*$", inits.strip(), re.S)
+            for member, ty, param in narrowed:
+                res.instances += 1
+                key = f"{fn}|{member}|{param}"
+                if not okm:
+                    res.add(key + "|no-ok", f"`{member}` keeps `{param}` as {ty} but the constructor has no ok flag to record a truncation", fn, line)
+                    continue
+                okexpr = re.sub(r"\s+", "", okm.group(2))
+                if f"{param}=={member}" not in okexpr and f"{member}=={param}" not in okexpr:
+                    res.add(key + "|unchecked", f"`{member}{{static_cast<{ty}>({param})}}` truncates a size_t, and the ok flag "
+                            f"(`{okm.group(2).strip()[:60]}`) does not contain `{param} == {member}`: an index whose offset wraps "
+                            "past the caller's size_t range test yields a block that is Ok() with a truncated offset, and the next "
+                            "checked Read() shifts by it (undefined behaviour)", fn, line)
+                elif len(res.samples) < 3:
+                    res.samples.append(f"{fn}:{line}: {param} == {member} in ok flag")
+    res.analysed = files
+    return res
